@@ -280,11 +280,10 @@ Proof.
     + apply N.leb_le in E. split; [|split; [reflexivity|split; [rewrite Hv, !app_length; reflexivity|]]].
       * constructor; cbn; [exact Hok2|exact Hd2|exact Hm|exact Hb|].
         destruct post as [|[s2 q2] post'].
-        -- right. cbn. rewrite app_length. cbn [length]. unfold sz in HD. cbn in HD. split; lia.
+        -- right. cbn. rewrite app_length. cbn [length]. change (sz []) with 0 in HD. unfold k in Hol. split; lia.
         -- left. exists (pre ++ [(s, r2)]), s2, q2, post'. cbn.
            rewrite <- app_assoc. cbn [app]. rewrite app_length, sz_app. cbn [length].
            unfold sz at 2. cbn [map fold_right fst].
-           inversion Hok2 as [|] eqn:Ex; [destruct pre; discriminate|].
            apply Forall_app in Hok2. destruct Hok2 as [_ Hq]. inversion Hq as [|? ? _ Hq']. inversion Hq' as [|? ? [_ Hp2] _].
            cbn [fst] in Hp2. repeat split; try lia.
       * right. exists (s - c_rel c). split; [lia|]. split; [lia|]. split; [exact Ho|]. split; [exact Hol|].
